@@ -27,6 +27,7 @@ from collections import Counter
 
 VERIF = os.path.dirname(os.path.dirname(os.path.abspath(__file__)))
 SRC = os.environ.get("ASYNCFIX_SRC", "/repo")
+OUT = os.environ.get("VERIF_OUT", VERIF)  # evidence/ and replays/ go here (mutant runs use a scratch dir)
 MAX_SAMPLES = 8
 MAX_DISTINCT = 2_000_000  # cap on stored signatures per run (counted conservatively)
 
@@ -246,7 +247,7 @@ def run_check(pid: str, tier: str, seed: int, replay_path: str | None = None) ->
         results = [_run_shard(j) for j in jobs]
     else:
         ctx = multiprocessing.get_context("fork")
-        with ctx.Pool(nproc, maxtasksperchild=None) as pool:
+        with ctx.Pool(nproc, maxtasksperchild=1) as pool:  # every shard in a fresh process
             results = pool.map(_run_shard, jobs, chunksize=1)
     for st, payload in results:
         if st == "ok":
@@ -262,7 +263,7 @@ def run_check(pid: str, tier: str, seed: int, replay_path: str | None = None) ->
     # classify violations
     unlisted = {s: v for s, v in total.violations.items() if s not in known}
     listed = {s: v for s, v in total.violations.items() if s in known}
-    rdir = os.path.join(VERIF, "replays", pid)
+    rdir = os.path.join(OUT, "replays", pid)
     os.makedirs(rdir, exist_ok=True)
     lines = []
     for sig, v in sorted(listed.items()):
@@ -278,7 +279,7 @@ def run_check(pid: str, tier: str, seed: int, replay_path: str | None = None) ->
                 f,
                 indent=1,
             )
-        rel = os.path.relpath(path, VERIF)
+        rel = os.path.relpath(path, OUT)
         lines.append(f"  sig={sig} count={v['count']} detail={v['detail'][:400]}")
         lines.append(f"VIOLATION property={pid} replay={rel}")
         rc = 1
@@ -311,7 +312,7 @@ def run_check(pid: str, tier: str, seed: int, replay_path: str | None = None) ->
         "wall_s": round(wall, 2),
         "violations": len(unlisted),
     }
-    edir = os.path.join(VERIF, "evidence")
+    edir = os.path.join(OUT, "evidence")
     os.makedirs(edir, exist_ok=True)
     with open(os.path.join(edir, f"{pid}.json"), "w", encoding="utf-8") as f:
         json.dump(ev, f, indent=1, sort_keys=False)
